@@ -405,6 +405,52 @@ example : ∃ s s1, Reachable bothCfg 1 s ∧ step bothCfg .failStart s = some s
     reachable_runTrace Reachable.init (failTrace.take 7) (by simp), rfl, ?_⟩
   decide
 
+/-! ### termination of stop() under fair schedules: a variant that every thread respects
+
+`stopping s`: the main thread is inside stop() (or inside the cleanup of a failed start()).  The variant is the
+pair (`mainRank s`, `help c s`) in lexicographic order, `help` being the work the *other* threads still have to do
+before main's next step is enabled: at `server_close()` the steps left for the handler threads of that server,
+at the `empty()` poll and at `join()` the steps left for the callback thread to drain the queue and to end.
+The three theorems are the premises of the standard fair-termination argument: the variant never goes up, whoever
+moves (1); while stop() has not returned, some thread has an enabled step that lowers it (2) – the main thread
+whenever `help = 0`, and then that step stays enabled because of (1) (3), otherwise a busy handler thread of the
+server being closed or the callback thread, whose next step is enabled until it is taken (a busy handler and a
+live callback thread can always step: `stepSndAt`/`stepCb` have no guard there).  Hence along every schedule that
+does not starve those threads for ever (weak fairness), stop() returns; the only steps that leave the variant
+unchanged are polling `empty()` on a non-empty queue, steps of handler threads of the *other* server and its
+new requests, and idle `get` timeouts of the callback thread while nothing is queued.
+The infinite-trace statement itself is not formalised. -/
+
+/-- **(1) The variant never goes up.**  While stop() is in progress no step of any thread – main, callback thread,
+    handler threads of either server, new requests on a port that still accepts – raises (rank, help). -/
+theorem C16_fair_variant_never_increases (c : Cfg) (hc : c.proto = .fixed) (n : Nat) (s s' : Sys)
+    (h : Reachable c n s) (hst : stopping s) (l : Label) (hs : step c l s = some s') :
+    mainRank s' < mainRank s ∨ (mainRank s' = mainRank s ∧ help c s' ≤ help c s) :=
+  fair_never_increases hc (inv_reachable hc h) hst l hs
+
+/-- **(2) Some thread can always lower the variant.**  While stop() is in progress there is an enabled step that
+    lowers (rank, help) strictly. -/
+theorem C16_fair_helpful_step_enabled (c : Cfg) (hc : c.proto = .fixed) (n : Nat) (s : Sys)
+    (h : Reachable c n s) (hst : stopping s) :
+    ∃ l s', step c l s = some s' ∧
+      (mainRank s' < mainRank s ∨ (mainRank s' = mainRank s ∧ help c s' < help c s)) :=
+  fair_helpful hc (inv_reachable hc h) hst
+
+/-- **(3) With no help needed, the main thread itself can go on.**  While stop() is in progress and `help = 0`,
+    the next step of the main thread is enabled and lowers its rank. -/
+theorem C16_fair_main_enabled_when_no_help (c : Cfg) (hc : c.proto = .fixed) (n : Nat) (s : Sys)
+    (h : Reachable c n s) (hst : stopping s) (h0 : help c s = 0) :
+    ∃ s', step c .main s = some s' ∧ mainRank s' < mainRank s :=
+  fair_main_enabled hc (inv_reachable hc h) hst h0
+
+/-- stop() is waiting in `server_close()` of the HTTPS server for the handler thread of sender 1 -/
+example : ∃ s, Reachable bothCfg 2 s ∧ stopping s ∧ s.main = .tClose2 ∧ help bothCfg s = 1 := by
+  refine ⟨_, reachable_runTrace Reachable.init (bothTrace.take 15)
+    (s' := (runTrace bothCfg (bothTrace.take 15) (init 2)).get (by decide)) (by simp), ?_, ?_, ?_⟩
+  · unfold stopping; decide
+  · decide
+  · decide
+
 /-! ### add_callback: which callbacks are registered, and in which order -/
 
 /-- **Registered callbacks.**  After any sequence `regs` of `add_callback` calls (callbacks identified up to
